@@ -44,7 +44,7 @@ SHARD_SIZE = 2
 
 
 def budget(tier):
-    return 132 if tier == "quick" else 3000
+    return 132 if tier == "quick" else 1000
 
 
 NPROC = {"quick": 4, "thorough": 12}
